@@ -16,8 +16,8 @@ package main
 import (
 	"context"
 	_ "crypto/sha256"
-	"encoding/json"
 	_ "crypto/sha512"
+	"encoding/json"
 	"errors"
 	"fmt"
 	"math/rand/v2"
@@ -53,6 +53,14 @@ func main() {
 	r.Assume("crash points are entries of file-system-mutating system calls as recognised by tools/crashat.c; a kill inside one write(2) is not explored (the data goes to a temporary file)")
 	r.Assume("Get of an address whose only matching entries are malformed (undecodable auth) is not judged")
 
+	// every temporary directory of the workers lives under one scratch directory that the
+	// supervisor removes, also when a worker dies in the middle of a case
+	scratch, err := os.MkdirTemp("", "verif-c18-scratch-")
+	if err != nil {
+		fmt.Println("BROKEN: mkdtemp:", err)
+		os.Exit(2)
+	}
+	tmpEnv := "TMPDIR=" + scratch
 	byKey := func(res worker.Result) {
 		for _, v := range res.Viol {
 			r.Add("violations["+v.Key+"]", 1)
@@ -63,24 +71,24 @@ func main() {
 		r.Set("wall_s_"+name, float64(int(time.Since(t0).Seconds()*10))/10)
 		t0 = time.Now()
 	}
-	worker.Run(r, worker.Opts{Phase: "seq", Total: r.N(600, 12000), Batch: 25, OnResult: byKey})
+	worker.Run(r, worker.Opts{Phase: "seq", Total: r.N(600, 12000), Batch: 25, OnResult: byKey, Env: []string{tmpEnv}})
 	lap("seq")
 
 	if os.Getenv("VERIF_CRASHAT") == "" {
 		r.Violation("harness:no-crashat", "VERIF_CRASHAT is not set", nil)
 	} else {
-		worker.Run(r, worker.Opts{Phase: "crash", Total: r.N(110, 3300), Batch: 5, OnResult: byKey})
+		worker.Run(r, worker.Opts{Phase: "crash", Total: r.N(110, 3300), Batch: 5, OnResult: byKey, Env: []string{tmpEnv}})
 		r.Set("crash_points_exhaustive_per_case", r.Counter("crash_cases_fully_enumerated") == r.Counter("crash_cases_with_points"))
 	}
 	lap("crash")
 
-	worker.Run(r, worker.Opts{Phase: "conc", Total: r.N(240, 10000), Batch: 15, OnResult: byKey})
+	worker.Run(r, worker.Opts{Phase: "conc", Total: r.N(240, 10000), Batch: 15, OnResult: byKey, Env: []string{tmpEnv}})
 	lap("conc")
 	if bin := os.Getenv("VERIF_RACE_BIN"); bin != "" {
-		raceDir, _ := os.MkdirTemp("", "verif-c18-race-")
-		defer os.RemoveAll(raceDir)
+		raceDir := filepath.Join(scratch, "racelogs")
+		os.Mkdir(raceDir, 0o700)
 		worker.Run(r, worker.Opts{Phase: "race", Total: r.N(60, 2500), Batch: 5, Bin: bin, OnResult: byKey,
-			Env: []string{"GORACE=halt_on_error=0 log_path=" + filepath.Join(raceDir, "race")}})
+			Env: []string{tmpEnv, "GORACE=halt_on_error=0 log_path=" + filepath.Join(raceDir, "race")}})
 		n := countRaceReports(raceDir, r)
 		r.Set("race_reports_in_library", n)
 		os.RemoveAll(raceDir)
@@ -91,6 +99,7 @@ func main() {
 	if r.Counter("crash_points_enumerated") < int64(r.N(200, 6000)) {
 		r.Violation("harness:too-few-crash-points", fmt.Sprintf("only %d crash points enumerated", r.Counter("crash_points_enumerated")), nil)
 	}
+	os.RemoveAll(scratch)
 	r.Finish(r.N(250, 5000))
 }
 
